@@ -235,7 +235,9 @@ func (l *leader) checkConfigAction(t *task, config Config, status *replicationSt
 }
 
 func (l *leader) canChangeConfig() bool {
-	return l.configs.IsCommitted() && !l.transfer.inProgress()
+	// see https://groups.google.com/forum/#!msg/raft-dev/t4xj6dJTP6E/d2D9LrWRza8J
+	// leader must have committed an entry from its term, before it changes config
+	return l.commitIndex >= l.startIndex && l.configs.IsCommitted() && !l.transfer.inProgress()
 }
 
 func (l *leader) onWaitForStableConfig(t waitForStableConfig) {
